@@ -50,7 +50,7 @@ func lockBalance(c *core.Ctx, R string, pkgs ...string) {
 		}
 		locks := false
 		for _, cl := range u.Calls() {
-			if cl.Callee != nil && cl.Callee.Pkg() != nil && cl.Callee.Pkg().Path() == "sync" && (cl.Name == "Lock" || cl.Name == "RLock") && !cl.Deferred {
+			if cl.Callee != nil && cl.Callee.Pkg() != nil && cl.Callee.Pkg().Path() == "sync" && (cl.Name == "Lock" || cl.Name == "RLock" || cl.Name == "Unlock" || cl.Name == "RUnlock") && !cl.Deferred {
 				locks = true
 			}
 		}
@@ -69,7 +69,28 @@ func lockBalance(c *core.Ctx, R string, pkgs ...string) {
 				}
 			}
 		}
+		// … and on no path at all: a lock taken in one branch and not released there reaches the exit held
+		for k, pos := range g.MayHeldAtExit() {
+			if leak == "" {
+				leak = keyf("%s may still be held at the exit at %s", k, c.P.PosStr(pos))
+			}
+		}
 		c.Check(R, u.Key+"/locks-released-on-every-exit", u.Pos(), leak == "", leak)
+		// … and nothing is released that is not held (unlock of an unlocked mutex is a fatal runtime error)
+		for _, cl := range u.Calls() {
+			if cl.Callee == nil || cl.Callee.Pkg() == nil || cl.Callee.Pkg().Path() != "sync" || cl.Inlined != nil || cl.Recv == nil {
+				continue
+			}
+			key := core.LockKey(u.Info(), cl.Recv)
+			switch cl.Name {
+			case "RUnlock":
+				key += "#R"
+			case "Unlock":
+			default:
+				continue
+			}
+			c.Check(R, keyf("%s/%s-released-only-when-held", u.Key, key), cl.Pos(), g.HeldAt(cl.Loc)[key], keyf("%s is held on every path to its %s", key, cl.Name))
+		}
 	}
 	c.Need(R, "functions that lock", n, 3)
 }
